@@ -92,7 +92,22 @@ def property_on_impl(obs):
     k, amb = cluster_count(obs)
     if amb:
         return None
-    want = sum(o['nseg'] - 1 for o in obs['objs']) + sum(int(o['g0']) + int(o['g1']) for o in obs['objs']) + k
+    # wire ends lying on the ground plane, from the segment table (not from the implementation's flags): |z| below the
+    # joining tolerance; an end within 10 % of the tolerance is not decidable
+    tol = 1e-3 * obs['min_seglen']
+    ng = 0
+    if obs.get('ground'):
+        for o in obs['objs']:
+            for e, flag in (('p0', 'g0'), ('p1', 'g1')):
+                z = abs(o[e][2])
+                if 0.9 * tol < z < 1.1 * tol:
+                    return None
+                on = z < tol
+                if on != bool(o[flag]):
+                    return ('object %d: end %s at height %.3g (tolerance %.3g) is %streated as lying on the ground plane'
+                            % (o['tag'], e[1:], o[e][2], tol, '' if o[flag] else 'not '))
+                ng += int(on)
+    want = sum(o['nseg'] - 1 for o in obs['objs']) + ng + k
     if N != want:
         return 'pulse count %d, formula gives %d' % (N, want)
     flat = [i for o in obs['objs'] for i in o['pulses']]
@@ -146,7 +161,22 @@ def curved_cases():
         for gap in (0.5, 3.0):
             out.append(('conical helix (narrow end %d) + wire %.1f tolerances from its second end' % (ne + 1, gap),
                         lambda ne=ne, gap=gap: cone(ne, gap)))
+    # over a ground plane (name starts with 'ground:'): curved objects standing on it with one or both ends
+    TOP = (0.0, 0.0, R)
+    out.append(('ground: half loop standing on the plane', lambda: [A(10, 0, 180)]))
+    out.append(('ground: half loop, other direction', lambda: [A(7, 180, 0)]))
+    out.append(('ground: quarter arc from the plane + wire down to the plane', lambda: [A(5, 0, 90), W(4, TOP, (0.0, 0.0, 0.0))]))
+    out.append(('ground: quarter arc ending on the plane + tail', lambda: [A(5, 90, 180), W(3, TOP, (0.5, 0.3, 1.4))]))
+    out.append(('ground: two quarter arcs (half loop of two objects)', lambda: [A(4, 0, 90), A(5, 90, 180)]))
+    out.append(('ground: half loop + vertical wire beside it', lambda: [W(4, (2.0, 0.0, 0.0), (2.0, 0.0, 1.5)), A(8, 0, 180)]))
+    out.append(('ground: lifted half loop (no grounded end)', lambda: [Arc(8, R, 10, 170, 0.002)]))
+    out.append(('ground: helix standing on the plane', lambda: [Helix(10, 1.0, 0.5, 0.002, 0.3, 0.3)]))
     return out
+
+
+def build_curved(name, mk):
+    from mininec.mininec import Mininec, ideal_ground
+    return Mininec(10.0, mk(), media=[ideal_ground] if name.startswith('ground:') else None)
 
 
 def minseg_tie(d, m):
@@ -237,7 +267,7 @@ def replay(rp):
     if rp.get('kind') == 'curved':
         from mininec.mininec import Mininec
         mk = dict(curved_cases())[rp['name']]
-        m = Mininec(10.0, mk())
+        m = build_curved(rp['name'], mk)
         bad = topo.pulse_geometry_bad(m) or property_on_impl(topo.observe_impl(m))
         print('replay', rp['name'], '->', bad or 'property holds')
         return 1 if bad else 0
@@ -291,7 +321,7 @@ def run(ck):
     from mininec.mininec import Mininec
     for name, mk in curved_cases():
         try:
-            m = Mininec(10.0, mk())
+            m = build_curved(name, mk)
         except Exception as e:
             ck.violation(dict(kind='curved', name=name, observed='structure rejected: %s: %s' % (type(e).__name__, e)))
             return
